@@ -42,7 +42,7 @@ import (
 // Line protocol (one .in line ↔ one .go line)
 //   K <case> kind=cpu family=<f> memsize=<n> regs=<r:v,..> mem=<zhex> prog=<hex>      → case
 //   K <case> kind=rig memsize=<n> ops=<core>:<r|w|f>:<addr>:<width>:<delay>:<val>,..  → case
-//   R <run> case=<case> variant=<v> cores=<n> lsz=<L1 line size> l1n=<L1 lines> l3=<L3 line size|0> → run
+//   R <run> case=<case> variant=<v> cores=<n> lsz=<L1 line size> l1n=<L1 lines> l3=<L3 line size|0> mem=<bytes> → run
 //   S <cycle> <rep> ; st=.. ; sem=.. ; cmd=.. ; c0=.. ; c1=.. ; nl=..                 → ok | viol <clauses>
 //        a snapshot taken at the tick of cycle <cycle>, unchanged for <rep> consecutive cycles
 //        st   core:base:state,…          (state 1 Shared, 2 Modified; Invalid entries are omitted)
@@ -584,7 +584,7 @@ func c06CaseLine(id int, c cpuCase) string {
 func c06RunCPU(runID, caseID int, vname string, n int, c cpuCase, maxEmit int) []c06Line {
 	v := c06Variant(vname)
 	app, err := risc.Parse(c.text)
-	hdr := c06Line{fmt.Sprintf("R %d case=%d variant=%s cores=%d lsz=64 l1n=16 l3=%d", runID, caseID, vname, n, map[bool]int{true: 128, false: 0}[vname == "mvp8-0"]), "run"}
+	hdr := c06Line{fmt.Sprintf("R %d case=%d variant=%s cores=%d lsz=64 l1n=16 l3=%d mem=%d", runID, caseID, vname, n, map[bool]int{true: 128, false: 0}[vname == "mvp8-0"], c.memSize), "run"}
 	run := newC06Run(maxEmit)
 	if err != nil {
 		run.end(runID, "parse-error")
@@ -640,8 +640,8 @@ type c06Plan struct {
 }
 
 var c06Plans = map[string]c06Plan{
-	"c06":       {"c06", []string{"mem", "pair", "dep-mem", "tail", "mem", "sweep"}, 72, 250},
-	"c06-flush": {"c06-flush", []string{"br-mem", "shadow", "br-mem", "brsweep"}, 48, 120},
+	"c06":       {"c06", []string{"mem", "pair", "dep-mem", "tail", "mem", "sweep"}, 60, 250},
+	"c06-flush": {"c06-flush", []string{"br-mem", "shadow", "br-mem", "brsweep"}, 36, 120},
 }
 
 // c06GenCase: the shared families plus two of C06's own: `sweep` (more lines than L1 holds, so the
@@ -654,6 +654,13 @@ func c06GenCase(seed int64, plan c06Plan, i int) cpuCase {
 		ms := 4096
 		g := newGen(r, 3+r.Intn(3), ms)
 		g.base = []int{9}
+		var data []int
+		for _, d := range g.data { // s1 is the address register and s10 the loop counter: never data registers
+			if d != 9 && d != 26 {
+				data = append(data, d)
+			}
+		}
+		g.data = data
 		g.emit("li s1, %d", r.Intn(8)*64)
 		nl := 17 + r.Intn(6)
 		var loop string
@@ -698,17 +705,16 @@ func c06GenCase(seed int64, plan c06Plan, i int) cpuCase {
 }
 
 // c06CPUCase runs case i of the plan on every variant × 1..4 cores; returns the lines.
-func c06CPUCase(seed int64, plan c06Plan, i int) []c06Line {
+func c06CPUCase(seed int64, plan c06Plan, i int, emit func([]c06Line)) {
 	c := c06GenCase(seed, plan, i)
-	out := []c06Line{{c06CaseLine(i, c), "case"}}
+	emit([]c06Line{{c06CaseLine(i, c), "case"}})
 	k := 0
 	for _, v := range c06Variants {
 		for n := 1; n <= 4; n++ {
-			out = append(out, c06RunCPU(i*12+k, i, v, n, c, plan.maxEmit)...)
+			emit(c06RunCPU(i*12+k, i, v, n, c, plan.maxEmit))
 			k++
 		}
 	}
-	return out
 }
 
 func c06WorkerMain(dir string, seed int64, tier string) {
@@ -722,9 +728,14 @@ func c06WorkerMain(dir string, seed int64, tier string) {
 	for i := lo; i < hi; i++ {
 		fmt.Fprintf(w, "BEGIN %d\n", i)
 		w.Flush()
-		for _, l := range c06CPUCase(seed, plan, i) {
-			fmt.Fprintf(w, "%s\t%s\n", l.in, l.out)
-		}
+		// one flush per run: the parent's watchdog measures the stall of a single run (runs are bounded by
+		// their tick budget; only a loop without ticks or a blocked channel send stalls)
+		c06CPUCase(seed, plan, i, func(lines []c06Line) {
+			for _, l := range lines {
+				fmt.Fprintf(w, "%s\t%s\n", l.in, l.out)
+			}
+			w.Flush()
+		})
 		fmt.Fprintf(w, "END %d\n", i)
 		w.Flush()
 	}
@@ -836,7 +847,7 @@ func c06CPUStream(planName string) streamFn {
 			go func() {
 				defer wg.Done()
 				for j := range jobs {
-					r := c06RunRange(seed, plan, j.lo, j.hi, 10*time.Second)
+					r := c06RunRange(seed, plan, j.lo, j.hi, 20*time.Second)
 					mu.Lock()
 					for k, v := range r {
 						all[k] = v
@@ -903,7 +914,7 @@ func c06RigMemInit(mem []int8) {
 // c06RunRig executes a rig case: per cycle, a snapshot, then every core's snoop coroutine, then
 // every core's request in core order (the order of CPU.Run).
 func c06RunRig(runID, caseID int, vname string, cores int, c c06RigCase, maxEmit int, maxCycles int) []c06Line {
-	hdr := c06Line{fmt.Sprintf("R %d case=%d variant=%s cores=%d lsz=64 l1n=16 l3=%d", runID, caseID, vname, cores, map[bool]int{true: 128, false: 0}[vname == "mvp8-0"]), "run"}
+	hdr := c06Line{fmt.Sprintf("R %d case=%d variant=%s cores=%d lsz=64 l1n=16 l3=%d mem=%d", runID, caseID, vname, cores, map[bool]int{true: 128, false: 0}[vname == "mvp8-0"], c.MemSize), "run"}
 	run := newC06Run(maxEmit)
 	rig := c06MkRig(vname, cores, c.MemSize)
 	mem := rig.Memory()
@@ -1067,9 +1078,9 @@ func c06RigStream(name string, withFlush bool) streamFn {
 	return func(dir string, seed int64, tier string) {
 		o := hx.Open(dir, name)
 		defer o.Close()
-		n := 240
+		n := 200
 		if withFlush {
-			n = 120
+			n = 100
 		}
 		if tier == "thorough" {
 			n *= 10
@@ -1163,8 +1174,7 @@ func c06ExhShard(shard int) streamFn {
 		delays := []int{0, 2, 310, 313}
 		emitEvery := 5
 		if tier == "thorough" {
-			k = 4
-			delays = []int{0, 1, 3, 4, 309, 310, 313}
+			k = 4 // ≈ 9.6·10^5 runs over the 16 shards
 			emitEvery = 97
 		}
 		if env := os.Getenv("VERIF_C06_EXH_K"); env != "" {
